@@ -1,19 +1,21 @@
 """C09 - see MANIFEST below and DESIGN.md section 4/C09."""
+import random
+
 from checks import pfcp_common as pc
 from checks import timer_phase, wfail_phase
 
 MANIFEST = dict(
     text='Kernel-checked: every UPF-initiated request takes the counter as sequence number, which is < 2^24 and stays < 2^24 for every counter position (wrap-around included) and is registered under exactly that number; each expiry re-sends the same datagram while the retry count is below the maximum, then the entry is dropped; a response from the same peer with that sequence number releases the entry without any transmission; unmatched responses/expiries leave the whole state unchanged. Tie: differential run with the counter positioned at 0, 5, 2^24-2, 2^24-1 (in-package hook), reports, expiries, matching / wrong-peer / wrong-sequence / duplicated responses, retry counts 0..3; byte-identity monitor.',
-    note='Distinctness: the k-th request since the counter stood at x0 carries (x0+k) mod 2^24, two requests differ iff fewer than 2^24 requests lie between them, and the bound is exact (C09_distinct_within_window, C09_window_bound_exact); that no request stays outstanding over 2^24 later ones is an assumption on the environment (its life is bounded by (N+1)*T). Socket write failures are not in the Coq model; against the code they are exercised by a monitor-only write-failure phase (the first transmission of a Session Report Request fails in the socket: the request is registered all the same, a response with its number from its peer - not from another peer or another port of the same host - retires it, the retry budget runs from the failed transmission, the bookkeeping is released). In the differential run time-outs are injected events; a separate real-timer phase (time-outs of 150-200 ms, retry budgets 0..3) runs the real AfterFunc callbacks, the timer.Stop() of TxTransaction.recv and the interplay with receive transactions using the same sequence number, and checks the property on the time-stamped trace (retransmission times, budget, no retransmission after the response, response effective while outstanding, bookkeeping released). With time (model/Timed.v, parameters read from transaction.go / pfcp.go on every run: C09_timer_sites): for every T, N, send time and loop latencies the i-th retransmission is not before t0 + i*T and at most delta late, there are never more than N, after N+1 expiries the request is abandoned and released, nothing after a response (C09_retransmission_schedule, C09_retry_budget_and_release, C09_response_stops_retransmission); a re-arm that can be skipped is refuted (C09_skipped_rearm_refuted). ',
+    note='Distinctness: the k-th request since the counter stood at x0 carries (x0+k) mod 2^24, two requests differ iff fewer than 2^24 requests lie between them, and the bound is exact (C09_distinct_within_window, C09_window_bound_exact); that no request stays outstanding over 2^24 later ones is an assumption on the environment (its life is bounded by (N+1)*T). Socket write failures: the first transmission of a request failing in the socket is the model event EvReportWF (theorems C09_failed_write_same_state / _still_registered / _then_expiry / _then_response; such reports are part of the model-compared histories), failing retransmissions are not modelled; a further monitor-only write-failure phase (the first transmission of a Session Report Request fails in the socket: the request is registered all the same, a response with its number from its peer - not from another peer or another port of the same host - retires it, the retry budget runs from the failed transmission, the bookkeeping is released). In the differential run time-outs are injected events; a separate real-timer phase (time-outs of 150-200 ms, retry budgets 0..3) runs the real AfterFunc callbacks, the timer.Stop() of TxTransaction.recv and the interplay with receive transactions using the same sequence number, and checks the property on the time-stamped trace (retransmission times, budget, no retransmission after the response, response effective while outstanding, bookkeeping released). With time (model/Timed.v, parameters read from transaction.go / pfcp.go on every run: C09_timer_sites): for every T, N, send time and loop latencies the i-th retransmission is not before t0 + i*T and at most delta late, there are never more than N, after N+1 expiries the request is abandoned and released, nothing after a response (C09_retransmission_schedule, C09_retry_budget_and_release, C09_response_stops_retransmission); a re-arm that can be skipped is refuted (C09_skipped_rearm_refuted). ',
     technique='Coq step lemmas on the transmit-transaction table + differential run with positioned counter + byte-identity monitor',
     design='4/C09')
 
 RULE = 'histories dense in reports, transmit expiries and responses; counter start in {0,5,2^24-2,2^24-1}; maxRetrans 0..3'
 
-GEN = dict(weights=dict(usa=22, dld=16, timeout=26, srr=20, otherrsp=6, est=12, mod=6, dele=4), big_seids=False, p_alias=0.06)
+GEN = dict(weights=dict(usa=22, dld=16, timeout=26, srr=20, otherrsp=6, est=12, mod=6, dele=4), big_seids=False, p_alias=0.06, p_wfail=0.2)
 N_QUICK, N_THOROUGH = 120, 3000
 
 
 def run(ctx, replay=None):
     return pc.run_property(ctx, "C09", pc.mon_c09, GEN, N_QUICK, N_THOROUGH, replay=replay, rule=RULE,
-                           assumptions=[pc.PFCP_NOTE], directed=pc.directed_c09, extra_phase=wfail_phase.both(wfail_phase.phase("C09"), timer_phase.phase("C09", timer_phase.mon_c09_timed)))
+                           assumptions=[pc.PFCP_NOTE], directed=lambda rnd: pc.directed_c09(rnd) + wfail_phase.cases(random.Random(rnd.randrange(1 << 30)), 10), extra_phase=wfail_phase.both(wfail_phase.phase("C09"), timer_phase.phase("C09", timer_phase.mon_c09_timed)))
